@@ -975,6 +975,10 @@ impl Log {
 		}
 		if let Some((id, _record_id, file)) = self.replay_queue.write().pop_front() {
 			log::debug!(target: "parity-db", "Replay: Activated log reader {}", id);
+			if self.sync {
+				// The process that wrote this log may have died before syncing it.
+				try_io!(file.sync_data());
+			}
 			*reading = Some(Reading { id, file: std::io::BufReader::new(file) });
 			Ok(Some(id))
 		} else {
